@@ -61,9 +61,9 @@ type Grammar struct {
 	Root    string   `json:"root"`
 	Prods   []*Prod  `json:"prods"`
 	Unions  []*Union `json:"unions,omitempty"`
-	Profile int      `json:"profile"`          // lexer profile
+	Profile int      `json:"profile"`            // lexer profile
 	NamesEl bool     `json:"names_el,omitempty"` // grammar names an elided token type
-	Feat    []string `json:"feat,omitempty"`   // generator's bias notes
+	Feat    []string `json:"feat,omitempty"`     // generator's bias notes
 }
 
 // JSON renders the grammar.
